@@ -40,7 +40,7 @@ rm -f "$F" "$D"; mkfifo "$F" || exit 97
 R=$!
 mount --bind "$F" /dev/console || exit 97
 if [ -n "$C12_DROP_CHOWN" ]; then setpriv --bounding-set=-chown --inh-caps=-chown "$@"; else "$@"; fi; rc=$?
-touch "$D"; : > "$F"; wait $R
+touch "$D"; ( : > "$F" ) & W=$!; wait $R; kill $W 2>/dev/null; wait $W 2>/dev/null
 umount /dev/console 2>/dev/null; rm -f "$F" "$D"
 exit $rc"""
 STRACE_SET = "mkdir,mkdirat,chown,fchown,lchown,fchownat,chmod,fchmod,fchmodat,open,openat,openat2,creat,rename,renameat,renameat2"
@@ -643,8 +643,8 @@ def run(ctx):
     binary = bins["c12"]
     rng = ctx.rng
 
-    n_random = 114 if ctx.quick else 600
-    n_strace = 24 if ctx.quick else 80
+    n_random = 114 if ctx.quick else 2000
+    n_strace = 24 if ctx.quick else 200
     hists = [WITNESS_HEX, WITNESS_BODY] + FIXED_CASES
     for i in range(n_random):
         hists.append(gen_history(rng, faults=(i % 3 != 0)))
